@@ -10,8 +10,8 @@ THEOREM = 'C12_load_at_most_once'
 RULE = ('random operation sequences (1-40 ops) over 1-4 handles placed at depth 1-3 of a '
         'ResourceMap, loaded values drawn from None/0/0.0/""/[]/{}/objects with '
         '__bool__ False, __eq__ always True, __eq__ always False / a World; each access '
-        'goes through one of 7 paths (h(), m[path], static attribute, static item, '
-        'm.get, static get, SimpleLoop.switch); distinct = different (case, trace); '
+        'goes through one of 6 paths (h(), m[path], static attribute, static item, '
+        'm.get, static get) or is a SimpleLoop.switch with random clear_current/clear_next; distinct = different (case, trace); '
         'non-trivial = at least one clear and two loading accesses of the same handle')
 TRUSTED = [
     'Coq 8.16.1 kernel + vm_compute (evaluation of C12_verdict on the observed traces)',
@@ -22,7 +22,7 @@ TRUSTED = [
 ]
 ASSUMPTIONS = ['load() itself does not touch the handle (it is user code)']
 
-PATHS = ['PCall', 'PItem', 'PSAttr', 'PSItem', 'PGet', 'PSGet', 'PSwitch']
+PATHS = ['PCall', 'PItem', 'PSAttr', 'PSItem', 'PGet', 'PSGet']
 KINDS = ['none', 'zero', 'fzero', 'empty', 'list', 'dict', 'falsy', 'eqtrue', 'eqfalse',
          'world']
 
@@ -33,6 +33,8 @@ def gen(rng, tier):
     for _ in range(n):
         nh = rng.randint(1, 4)
         kinds = [rng.choice(KINDS) for _ in range(nh)]
+        if rng.random() < 0.35:        # loop-heavy case: mostly world handles
+            kinds = [k if rng.random() < 0.3 else 'world' for k in kinds]
         depth = [rng.randint(1, 3) for _ in range(nh)]
         ops = []
         for _ in range(rng.randint(1, 40)):
@@ -42,9 +44,10 @@ def gen(rng, tier):
                 ops.append(['clear', h])
             elif r < 0.35:
                 ops.append(['cached', h])
+            elif r < 0.5 and kinds[h] == 'world':
+                ops.append(['switch', h, rng.random() < 0.5, rng.random() < 0.4])
             else:
-                ps = PATHS if kinds[h] == 'world' else PATHS[:-1]
-                ops.append(['access', h, rng.choice(ps)])
+                ops.append(['access', h, rng.choice(PATHS)])
         cases.append(dict(kinds=kinds, depth=depth, ops=ops))
     return cases
 
@@ -108,6 +111,10 @@ def run(case):
                 flag = True
             elif o[0] == 'cached':
                 flag = h.cached is True or (h.cached is not False and bool(h.cached))
+            elif o[0] == 'switch':
+                loop.switch(h, clear_current=o[2], clear_next=o[3])
+                flag = bool(h.loaded) and loop.current_world is h.loaded[-1] \
+                    and loop.current_world_handle is h
             else:
                 p = o[2]
                 if p == 'PCall':
@@ -131,9 +138,6 @@ def run(case):
                     for part in parts[:-1]:
                         cur = cur.get(part)
                     res = cur.get(parts[-1])
-                elif p == 'PSwitch':
-                    loop.switch(h)
-                    res = loop.current_world
                 if p in ('PGet', 'PSGet'):
                     flag = res is h
                 else:
@@ -153,6 +157,8 @@ def encode(case, trace):
             op = '(OClear %s)' % z(o[1])
         elif o[0] == 'cached':
             op = '(OCached %s)' % z(o[1])
+        elif o[0] == 'switch':
+            op = '(OSwitch %s %s %s)' % (z(o[1]), b(o[2]), b(o[3]))
         else:
             op = '(OAccess %s %s)' % (z(o[1]), o[2])
         items.append('(%s, {| o_loads := %s; o_flag := %s |})' % (op, z(ob[0]), b(ob[1])))
@@ -163,9 +169,9 @@ def nontrivial(case, trace):
     per = {}
     for o in case['ops']:
         d = per.setdefault(o[1], [0, 0])
-        if o[0] == 'clear':
+        if o[0] == 'clear' or (o[0] == 'switch' and o[3]):
             d[0] += 1
-        elif o[0] == 'access' and o[2] not in ('PGet', 'PSGet'):
+        if o[0] == 'switch' or (o[0] == 'access' and o[2] not in ('PGet', 'PSGet')):
             d[1] += 1
     return any(c >= 1 and a >= 2 for c, a in per.values())
 
